@@ -293,7 +293,7 @@ def _sample_config(rng):
                        "sample": rng.choice(["plain", "with # hash", "a = b", "ünï", "x;y", "50% [v/v]", "tab\there", "0042",
                                              "true", "1e3", "1,5"]),
                        "time": "12:00:%02d.5" % rng.randint(0, 59)},
-        "imaging": {"pixel size": rng.choice([0.34, 0.3412345678901234, 1e-7]), "frame rate": float(rng.randint(100, 4000)),
+        "imaging": {"pixel size": rng.choice([0.34, 0.3412345678901234, 1e-7, "0.34"]), "frame rate": rng.choice([float(rng.randint(100, 4000)), "2000"]),
                     "roi size x": rng.randint(10, 400), "flash device": "LED"},
         "setup": {"channel width": rng.choice([20.0, 30.0]), "chip region": rng.choice(["Channel", "reservoir"]),
                   "flow rate": rng.choice([0.04, 0.16, 1e-3]), "medium": rng.choice(["CellCarrier", "0.49% MC-PBS", "other"]),
@@ -304,7 +304,7 @@ def _sample_config(rng):
                           "area_um,deform soft limit": rng.random() < 0.5,
                           "area_um,deform polygon points": [[rng.random(), rng.random()] for _ in range(3)],
                           "deform min": 0.01, "area_um max": 200.5},
-        "qpi": {"scale to filter": rng.choice([False, True, 0.5]), "sideband freq": (0.1, -0.2), "wavelength": 532.0},
+        "qpi": {"scale to filter": rng.choice([False, True, 0.5, "0.5", "2", "1e-2", "True", "0"]), "sideband freq": (0.1, -0.2), "wavelength": 532.0},
         "user": {"My Key": rng.choice([1, 2.5, "text", True]), "a:b": "colon", "with space ": 3, "ünï": "ü",
                  "one element list": [7], "one element tuple": (12.5,), "one element array": np.array([3]),
                  "two elements": [1, 2]},
@@ -338,6 +338,23 @@ def _replay_text(inp):
         for trial in range(int(inp.get("trials", 6))):
             cfg = _sample_config(rng)
             want = _expected(cfg)
+            # a number given as text is the number: the same as assigning the number itself
+            for sec in cfg:
+                for k, orig in cfg[sec].items():
+                    if not isinstance(orig, str) or k.lower() not in want[sec]:
+                        continue
+                    try:
+                        num = float(orig)
+                    except ValueError:
+                        continue
+                    typ = dfn.get_config_value_type(sec, k.lower())
+                    if typ is None or str in (typ if isinstance(typ, tuple) else (typ,)) or num != num:
+                        continue
+                    ref = Configuration()
+                    ref[sec][k] = int(num) if num == int(num) and "." not in orig and "e" not in orig.lower() else num
+                    if k.lower() in ref[sec] and _norm(ref[sec][k.lower()]) != _norm(want[sec][k.lower()]):
+                        return {"failed": True, "detail": f"[{sec}] '{k}': the text {orig!r} is stored as {want[sec][k.lower()]!r}, "
+                                                          f"the number itself as {ref[sec][k.lower()]!r}"}
             f = pathlib.Path(td) / f"c{trial}.cfg"
             text_cfg = _expected({sec: {k: v for k, v in kv.items() if not isinstance(want[sec].get(k), (np.ndarray, tuple, list))}
                                   for sec, kv in cfg.items()})
